@@ -691,6 +691,13 @@ void run_case(uint64_t seed, const std::string& id, bool big)
         else if (spec.kind == "scalar") { if (spec.ids1.empty()) dataset.add<scalar_identity_generator_t>(); else dataset.add<scalar_identity_generator_t>(to_idx(spec.ids1)); }
         else if (spec.kind == "struct") { if (spec.ids1.empty()) dataset.add<struct_identity_generator_t>(); else dataset.add<struct_identity_generator_t>(to_idx(spec.ids1)); }
         else if (spec.kind == "gradient") { if (spec.ids1.empty()) dataset.add<gradient_generator_t>(); else dataset.add<gradient_generator_t>(to_idx(spec.ids1)); }
+        else if (!spec.ids1.empty() && rng.next() % 2 == 0)
+        {
+            // two DIFFERENT feature lists (any order, repeats, different lengths): the products of list 1 x list 2
+            spec.ids2 = subset(false);
+            if (spec.ids2.empty()) spec.ids2 = spec.ids1;
+            dataset.add<pairwise_product_generator_t>(to_idx(spec.ids1), to_idx(spec.ids2));
+        }
         else { if (spec.ids1.empty()) dataset.add<pairwise_product_generator_t>(); else dataset.add<pairwise_product_generator_t>(to_idx(spec.ids1)); }
         std::printf("GEN %s %s | %s\n", spec.kind.c_str(), jl(spec.ids1).c_str(), jl(spec.ids2).c_str());
         gens.push_back(spec);
